@@ -232,6 +232,8 @@ def ite(c, a, b):
         return mk_cases(c[1], c[2], ((c[3], a), (rs_compl(c[3], c[2]), b)))
     if c[0] == "not":
         return ite(c[1], b, a)
+    if c[0] == "bin" and len(c) == 5 and c[1] == "Ne":
+        return ite(("bin", "Eq", c[2], c[3], c[4]), b, a)      # x != y is !(x == y), also for NaN
     if c[0] == "cases":
         return mk_cases(c[1], c[2], tuple((rs, ite(t, a, b)) for rs, t in c[3]))
     if a == TRUE and b == FALSE:
